@@ -75,7 +75,62 @@ class PipeOps(FullOps):
         self._lid += 1
         self.loop_ids.append(self._lid)
 
+    def induction(self, head, nxt, lid, info) -> bool:
+        """Induction variables of a loop over a key collection: a python int that starts from a constant c and grows by a width W taken
+        from the current element on every iteration holds, at the head of the iteration for element e, c + (sum of the widths of the
+        elements before e) — the same prefix sum `accumulate` produces, whatever the update is spelt like (`x += w`, `end = begin + w;
+        ...; begin = end`). Returns True when a variable was rewritten (the body must be interpreted again with the closed form)."""
+        order = info.get("order")
+        if order is None or self.strict_atoms:
+            return False
+        if not hasattr(self, "psums"):
+            self.psums = {}
+        reg = self.__dict__.setdefault("_induction", {}).setdefault(lid, {})
+        changed = False
+        for var, hv in list(head.vars.items()):
+            nv = nxt.vars.get(var)
+            if isinstance(hv, Const) and isinstance(hv.v, int) and not isinstance(hv.v, bool):
+                hv = tv_of(hv)
+            if isinstance(nv, Const) and isinstance(nv.v, int) and not isinstance(nv.v, bool):
+                nv = tv_of(nv)
+            if not (isinstance(hv, TV) and isinstance(nv, TV) and hv.kind == "pyint" and nv.kind == "pyint"):
+                continue
+            if var in reg:
+                sym, W = reg[var]
+                if nv.poly is not None and hv.poly is not None and nv.poly == hv.poly + W:
+                    nxt.vars[var] = hv  # the invariant is preserved by the body
+                else:
+                    del reg[var]
+                    head.vars[var] = hv.but(poly=None, note="")
+                    changed = True
+                continue
+            if hv.poly is None or nv.poly is None or hv.poly.const_value() is None:
+                continue
+            W = nv.poly - hv.poly
+            if W.const_value() is not None or any(str(x).startswith(("psum[", "i#")) for x in W.symbols()):
+                continue
+            key = f"{W!r}|{order!r}"
+            sym = f"psum[{key}]"
+            self.psums[sym] = W
+            reg[var] = (sym, W)
+            new = TV(kind="pyint", note="prefix-sum-cur", poly=Poly.sym(sym) + hv.poly, origin=hv.origin | nv.origin)
+            head.vars[var] = new
+            nxt.vars[var] = new
+            changed = True
+        return changed
+
     def loop_exit(self, env, lid, info, st):
+        # an induction variable leaves the loop holding the total
+        for var, (sym, W) in self.__dict__.get("_induction", {}).pop(lid, {}).items():
+            e_ = env
+            while e_ is not None:
+                if var in e_.vars and isinstance(e_.vars[var], TV):
+                    e_.vars[var] = e_.vars[var].but(poly=Poly.sym("total" + sym[4:]), note="prefix-sum-total")
+                    break
+                e_ = e_.parent
+        self._loop_exit_rest(env, lid, info, st)
+
+    def _loop_exit_rest(self, env, lid, info, st):
         if self.loop_orders:
             self.loop_orders.pop()
             self.loop_ids.pop()
@@ -573,6 +628,15 @@ class PipeOps(FullOps):
             dim = kwargs.get("dim", args[1] if len(args) > 1 else None)
             d = self.const_int(dim) if dim is not None else 0
             lst = self.to_list(sizes, "list", node) if not isinstance(sizes, TV) else None
+            if name == "tensor_split":
+                # tensor_split takes BOUNDARIES, not sizes: the running totals of the widths without the last one cut the axis into
+                # one block per width, in order — anything else is not modelled
+                e_ = lst.elem if isinstance(lst, ListV) and lst.items is None else None
+                ok_ = isinstance(e_, TV) and self.psum_note(e_).note == "prefix-sum-next" and lst.order is not None and lst.order[1] in ("same[:-1]", "unordered[:-1]", "dict-insertion[:-1]")
+                if not ok_:
+                    self.pev("opaque_method", node, name=name)
+                    return ListV(items=None, elem=opaque(t.origin, dtype=t.dtype), kind="tuple")
+                lst = replace(lst, order=(lst.order[0], lst.order[1][:-5]))
             lay = [l for l in t.layout if l[0] == d]
             if isinstance(lst, ListV) and lst.items is not None and (lst.order is None or "literal" in str(lst.order)) and lay and "literal-sequence" in repr(lay[0][1]):
                 # concrete sizes cutting an axis packed from a literal sequence of the same length
@@ -682,6 +746,12 @@ class PipeOps(FullOps):
             return res
         if fn in ("zeros_like", "ones_like", "empty_like", "zeros", "ones", "empty", "full", "full_like", "rand_like", "randn_like"):
             src = tv_of(a0)
+            if fn in ("full_like", "full"):
+                # full_like(x, 1) is ones_like(x), full_like(x, 0) is zeros_like(x): the event names what is created, not how it is spelt
+                fv = kwargs.get("fill_value", args[1] if len(args) > 1 else None)
+                c_ = self.const_int(fv) if fv is not None else None
+                if c_ is not None and c_ in (0, 1):
+                    fn = ("ones" if c_ == 1 else "zeros") + ("_like" if fn.endswith("_like") else "")
             self.pev("create", node, fn=fn, like=sorted(src.origin) if isinstance(src, TV) else None)
             dk = kwargs.get("dtype")
             dt = src.dtype if isinstance(src, TV) and fn.endswith("_like") else (dk.tag if isinstance(dk, MetaV) and dk.tag else "Default")
